@@ -74,7 +74,7 @@ def walk(e):
     while stack:
         x = stack.pop()
         if isinstance(x, dict):
-            if 'k' in x and 'sp' in x:
+            if 'k' in x and 'sp' in x and 'ty' in x:
                 yield x
             kids = list(children(x))
             stack.extend(reversed(kids))
@@ -215,7 +215,7 @@ class Lib:
 def walk_anc(e, anc=()):
     """(node, ancestors) for all expression nodes; ancestors are (parent_node, slot) pairs,
     slot = key under which the child hangs in the parent ('then', 'else', 'cond', 'args', ...)."""
-    if isinstance(e, dict) and 'k' in e and 'sp' in e:
+    if isinstance(e, dict) and 'k' in e and 'sp' in e and 'ty' in e:
         yield e, anc
         for k, v in e.items():
             if k in ('ty', 'sp', 'expn', 'callee'):
@@ -228,7 +228,7 @@ def walk_anc(e, anc=()):
 
 def _walk_slot(v, anc):
     if isinstance(v, dict):
-        if 'k' in v and 'sp' in v:
+        if 'k' in v and 'sp' in v and 'ty' in v:
             yield from walk_anc(v, anc)
         else:
             for k2, v2 in v.items():
